@@ -210,7 +210,11 @@ def _generated(case, acc, hook, bfp):
     L, k = case['L'], case['k']
     wl = gen_whitelist(r, L, case['n'])
     if case['index_kind'] == 'int':
-        ids = r.sample(range(1, 1000), len(wl))
+        ids = r.sample(range(0, 1000), len(wl))
+        if r.random() < 0.3:
+            ids[r.randrange(len(ids))] = 0      # cell index 0 is an index like any other
+            ids = list(dict.fromkeys(ids)) + r.sample(range(1000, 2000), len(wl))
+            ids = ids[:len(wl)]
     else:
         ids = [f'cell_{j}x' for j in r.sample(range(1, 1000), len(wl))]
     if case['style'] == 'single':
